@@ -55,12 +55,13 @@ def obs_tuple(o):
     return (comps, o['done'], o['stop'], o['pmq'], o['finq'], o['running'], v, o['cur'] + 1)
 
 
-def explore(W, outcome, chooser, maxlen=400, slow_pm=False):
+def explore(W, outcome, chooser, maxlen=400, slow_pm=False, sleepy=False):
     """Runs one schedule to completion. chooser(enabled_events, step) -> index. Returns
     (trace [(event, obs_before, obs_after)], driver_errors, complete?)"""
     import sched_driver as S
     d = S.Driver(W, outcome)
     d.slow_pm = slow_pm
+    d.sleepy = sleepy
     trace = []
     pre = d.observe()
     step = 0
@@ -119,6 +120,25 @@ def coq_obs(o):
                 for (a, b, c, d_, e, f) in comps])
     return '(%s, %s, %s, %s, %s, %s, %s, %s)' % (cs, clist(done, cnat), cbool(stop), clist(pmq, cnat), clist(finq, cnat),
                                                  cbool(running), cnat(v), cnat(cur))
+
+
+def coq_scase(W, outcome, trace):
+    """a trace with Sleep / Wake events, for Sched.Sleep.check_scase"""
+    tbl = clist([clist(outcome[c]) for c in range(len(W))])
+    items = []
+    for (ev, pre, post) in trace:
+        if ev[0] == 'PMB':
+            continue
+        if ev[0] == 'PME':
+            items.append('(Ev (PM %s), Some %s)' % (cnat(ev[1]), coq_obs(post)))
+        elif ev[0] == 'Start':
+            items.append('(Ev Start, None)')
+            items.append('(Ev Tick, Some %s)' % coq_obs(post))
+        elif ev[0] in ('Sleep', 'Wake'):
+            items.append('(%s, Some %s)' % (ev[0], coq_obs(post)))
+        else:
+            items.append('(Ev %s, Some %s)' % (coq_event(ev), coq_obs(post)))
+    return '(%s, %s, %s)' % (clist([coq_comp(d) for d in W]), tbl, clist(items))
 
 
 def coq_case(W, outcome, trace, fixed=True):
